@@ -157,10 +157,16 @@ func propC08(t *rapid.T) {
 	many := rapid.IntRange(0, 14).Draw(t, "many") == 0
 	if many {
 		// many distinct trips / shapes with few rows each: grouping structures that grow while rows of earlier groups still arrive
-		n := rapid.SampledFrom([]int{17, 33, 40, 70}).Draw(t, "manyN")
+		n := rapid.SampledFrom([]int{17, 33, 40, 70, 130, 260}).Draw(t, "manyN")
 		o.MinTrips, o.MaxTrips, o.MinShapes, o.MaxShapes = n, n, n, n
 		o.MinStopTimes, o.MaxStopTimes, o.MinPoints, o.MaxPoints = 2, 3, 2, 3
 		o.MaxStops, o.MaxFreq, o.MaxTransfers = 6, 0, 0
+	} else if rapid.IntRange(0, 29).Draw(t, "longTrip") == 0 {
+		// few groups with very many rows each
+		n := rapid.SampledFrom([]int{130, 260, 1030}).Draw(t, "longN")
+		o.MinTrips, o.MaxTrips, o.MinShapes, o.MaxShapes = 2, 2, 2, 2
+		o.MinStopTimes, o.MaxStopTimes, o.MinPoints, o.MaxPoints = n, n, n, n
+		o.MaxFreq, o.MaxTransfers = 0, 0
 	}
 	f, _ := sgen.GenFeed(t, o)
 	var g1, g2 []string
